@@ -196,6 +196,23 @@ def run_structural(pid, tier, seed, prop_module, audit_file, profiles, oracle, p
     return c.finish(checker_cmd=checker_cmd)
 
 
+def refinement_coverage(c, cases, key="reader_refinement_theorems"):
+    """zvdrv plainfile on every generated input whose dump exists: does the decidable hypothesis of the file-level /
+    import-graph refinement theorem hold on the tree the real parser produced, and does the closed form it states equal
+    the reader model's result (executed as a cross-check)"""
+    from .common import ZVDRV, run_lines
+    todo = [cs for cs in cases if cs.get("ref") is not None and os.path.exists(cs.get("dump", "") or "")]
+    rc, out, err = run_lines([ZVDRV, "plainfile"], [cs["dump"] + "\t" + cs["start"] for cs in todo])
+    tally = collections.Counter(out)
+    multi = sum(v for k, v in tally.items() if " imports" in k)
+    c.cov[key] = {"inputs": len(todo), "hypothesis_holds_on_the_real_parse": sum(v for k, v in tally.items() if k.startswith("plain=1")),
+                  "of_these_file_sets_with_imports": multi, "closed_form_equals_model_result": sum(v for k, v in tally.items() if "closed=ok" in k),
+                  "closed_form_differs": sum(v for k, v in tally.items() if "closed=differs" in k)}
+    if any("closed=differs" in k for k in tally) or len(out) != len(todo):
+        c.proof["errors"].append("zvdrv plainfile: the closed form of the refinement theorem differs from the reader model's result (or the driver failed): " + str(dict(tally))[:300] + err[-200:])
+    return []
+
+
 def replay_case(payload, oracle):
     d = payload.get("case_dir")
     if not d or not os.path.isdir(d):
